@@ -1,7 +1,7 @@
 """KNOWN FINDING (C16): `o.y: int` (declared-only attribute target) in a tooled function raises KeyError('o.y')
 from PteraNameError.info() instead of the ptera name error."""
 import sys
-sys.path.insert(0, "/repo")
+sys.path.insert(0, __import__("os").environ.get("PVC_REPO", "/repo"))
 from ptera import tooled
 from ptera.transform import PteraNameError
 
